@@ -52,6 +52,7 @@ REDUCE = {
     "tf.reduce_all": "reduce_all", "K.all": "reduce_all",
     "np.max": "reduce_max", "np.min": "reduce_min", "np.mean": "reduce_mean",
     "np.sum": "reduce_sum", "np.amax": "reduce_max", "np.amin": "reduce_min",
+    "np.all": "reduce_all", "np.any": "reduce_any",
 }
 
 CMP = {
@@ -600,6 +601,12 @@ def call(pe, name, args, kwargs, node):
     x = arg(args, kwargs, 0, "x", kwargs.get("input_tensor"))
     axis = arg(args, kwargs, 1, "axis", None)
     keep = arg(args, kwargs, 2, "keepdims", False)
+    if not isinstance(x, Tensor) and REDUCE[name] in ("reduce_all",
+                                                      "reduce_any"):
+      if isinstance(x, (list, tuple)):
+        vals = [pe.truth(e) for e in x]
+        return all(vals) if REDUCE[name] == "reduce_all" else any(vals)
+      return pe.truth(x)
     if not isinstance(x, Tensor):
       if isinstance(x, (list, tuple)) and concrete_list(x) and \
           REDUCE[name] in ("reduce_max", "reduce_min"):
@@ -739,7 +746,59 @@ def call(pe, name, args, kwargs, node):
   if name in ("tf.debugging.assert_equal", "tf.debugging.Assert",
               "tf.debugging.assert_greater", "tf.debugging.assert_less"):
     return None
+  if getattr(pe, "opaque_ext", False):
+    return opaque_call(pe, name, args, kwargs)
   pe.err("primitive %s is not in the trusted table" % name, node)
+
+
+def _freeze(v):
+  if isinstance(v, (list, tuple)):
+    return tuple(_freeze(e) for e in v)
+  if isinstance(v, dict):
+    return tuple(sorted((k, _freeze(e)) for k, e in v.items()))
+  if isinstance(v, ShapeV):
+    return ("shape",) + tuple(v.dims)
+  if isinstance(v, (Obj, Mock, Func, ClassRef, Ext, Opaque)):
+    return repr(v)
+  if isinstance(v, FloatTag):
+    return Fraction(v)
+  return v
+
+
+def _has_tensor(v):
+  if isinstance(v, Tensor):
+    return True
+  if isinstance(v, (list, tuple)):
+    return any(_has_tensor(e) for e in v)
+  return False
+
+
+def opaque_call(pe, name, args, kwargs):
+  """Uninterpreted function: tensor operands become term arguments, every
+  other argument a static attribute (so that e.g. strides / padding / axes
+  can be compared by the rules)."""
+  targs = []
+  attrs = []
+  for i, a in enumerate(args):
+    if isinstance(a, Tensor):
+      targs.append(a.term)
+    elif _has_tensor(a):
+      vec = tuple(pe.as_term(e) if isinstance(e, (Tensor, int, Fraction))
+                  else ("c", None) for e in a)
+      targs.append(("app", "pack", (), vec))
+    else:
+      attrs.append(("#%d" % i, _freeze(a)))
+  for k in sorted(kwargs):
+    a = kwargs[k]
+    if isinstance(a, Tensor):
+      targs.append(("app", "kw:" + k, (), (a.term,)))
+    elif _has_tensor(a):
+      vec = tuple(pe.as_term(e) if isinstance(e, (Tensor, int, Fraction))
+                  else ("c", None) for e in a)
+      targs.append(("app", "kw:" + k, (), (("app", "pack", (), vec),)))
+    else:
+      attrs.append((k, _freeze(a)))
+  return T(pe, ("app", name, tuple(attrs), tuple(targs)), None)
 
 
 def _is_decimal(text):
@@ -780,6 +839,9 @@ def isinstance_(pe, v, ty):
   for t in tys:
     if isinstance(t, ClassRef):
       if isinstance(v, Obj) and t.cls in v.cls.mro():
+        return True
+      if isinstance(v, Mock) and t.cls.name in v.attrs.get("__classes__",
+                                                             ()):
         return True
       continue
     if isinstance(t, (list, tuple)):
